@@ -15,12 +15,9 @@ func TestDbgFedRace(t *testing.T) {
 	}
 	defer gw.cancel()
 	for _, qs := range []string{
-		`{ users { id _federation { id } secret greet } }`,
-		`{ users { _federation { id orgId name } secret } }`,
-		`{ users { _federation { secret } greet device { id } } }`,
-		`{ users { _federation { greet secret } secret } }`,
+		`{ users { _federation { secret } email } }`,
 	} {
-		for k := 0; k < 200; k++ {
+		for k := 0; k < 50; k++ {
 			q, err := graphql.Parse(qs, nil)
 			if err != nil {
 				t.Fatal(err)
